@@ -1,5 +1,6 @@
 pub mod alloc;
 pub mod engine;
+pub mod fuzzentry;
 pub mod gen;
 pub mod model;
 pub mod props;
